@@ -1880,7 +1880,23 @@ class Engine:
                 return ret(T(op, (xs[0], xs[1]), 'bool'))
         if res is None and fn.get('trait') is not None and fn.get('trait') not in self.FN_TRAITS and vals and vals[0] is not None \
                 and vals[0][0] == 'dyn' and fn.get('self_kind') in ('ref', 'refmut'):
-            # `<T as Trait>::m(&self)` in generic code whose receiver is a trait object: T = dyn Trait, i.e. a virtual call
+            # `<T as Trait>::m(&self)` in generic code whose receiver is a trait object: T = dyn Principal.  If `Trait` is the
+            # object's own (or a super-) trait this is a virtual call, dispatched on the concrete type behind the object; if the
+            # crate implements `Trait` for the object type itself (`impl Trait for dyn Principal`), THAT impl is what rustc
+            # selects (redteam/B3-m2) - the two cannot coexist (E0371), so an explicit impl decides.
+            dyn_impls = [im for im in prog.facts.get('impls', []) if (im.get('trait') == fn['trait'].split('::')[-1] or im.get('trait') == fn['trait'])
+                         and isinstance(im.get('self_ty'), dict) and (im['self_ty'].get('k') == 'dyn' or im['self_ty'].get('k') == 'param')]
+            if dyn_impls:
+                sty = prog.subst_ty(fn['args'][0], fr.targs) if fr.targs and fn.get('args') else None
+                if sty is None or Program.has_param(sty) or sty.get('k') != 'dyn':
+                    raise Undecided('call of %s on a trait object while the crate implements that trait for a trait-object (or blanket) type; '
+                                    'the Self type is not known here' % fn['path_inst'], sp)
+                ri = prog.resolve_impl(fn['trait'], sty, fn.get('method'), [prog.subst_ty(a_, fr.targs or {}) for a_ in (fn.get('args') or [])[1:]])
+                if ri is not None:
+                    impl_fn, iargs = ri
+                    nfn = {'path': impl_fn, 'path_inst': impl_fn, 'trait': None,
+                           'resolved': {'path': impl_fn, 'path_inst': impl_fn, 'local': True, 'kind': 'item', 'args': iargs}}
+                    return self.invoke(nfn, vals, argtys, t, st, fr, work, leaves, depth + 1)
             ri = prog.resolve_impl(fn.get('trait'), vals[0][2], fn.get('method'),
                                    [prog.subst_ty(a_, fr.targs or {}) for a_ in (fn.get('args') or [])[1:]])
             if ri is not None:
